@@ -232,6 +232,11 @@ class Module:
             if t["alpha"]:
                 s += " (FROM(" + asn_string(t["alpha"]) + "))"
             return s + constraint(t["size"], "SIZE")
+        if k == "SEQUENCE" and t.get("ioc"):
+            setname = self.ioc_sets[json.dumps(t["comps"][1]["t"], sort_keys=True)]
+            idn, valn = t["comps"][0]["n"], t["comps"][1]["n"]
+            cls = "VCLO" if t["comps"][1]["t"]["comps"][0]["oid"] else "VCLS"
+            return "SEQUENCE {\n    %s %s.&id({%s}),\n    %s %s.&Type({%s}{@%s})\n}" % (idn, cls, setname, valn, cls, setname, idn)
         if k in ("SEQUENCE", "SET", "CHOICE"):
             return k + " " + self.comp_list(t, ind)
         if k in ("SEQOF", "SETOF"):
@@ -249,6 +254,23 @@ class Module:
 
     def text(self):
         lines = ["%s DEFINITIONS %s TAGS ::= BEGIN" % (self.name, self.mod["tagging"]), ""]
+        # information object class and object sets used by the module's open types
+        self.ioc_sets = {}
+        for d in self.mod["defs"]:
+            t = d["t"]
+            if t.get("k") == "SEQUENCE" and t.get("ioc"):
+                key = json.dumps(t["comps"][1]["t"], sort_keys=True)
+                if key not in self.ioc_sets:
+                    self.ioc_sets[key] = "RowSet%d" % (len(self.ioc_sets) + 1)
+        if self.ioc_sets:
+            lines += ["VCLS ::= CLASS { &id INTEGER UNIQUE, &Type } WITH SYNTAX { &Type IDENTIFIED BY &id }", ""]
+            lines += ["VCLO ::= CLASS { &id OBJECT IDENTIFIER UNIQUE, &Type } WITH SYNTAX { &Type IDENTIFIED BY &id }", ""]
+            for key, name in self.ioc_sets.items():
+                ot = json.loads(key)
+                isoid = bool(ot["comps"][0]["oid"])
+                idtext = (lambda r: "{ %s }" % " ".join(str(a) for a in r["oid"])) if isoid else (lambda r: "%d" % r["id"])
+                rows = " | ".join("{%s IDENTIFIED BY %s}" % (self.type_text(r["t"]), idtext(r)) for r in ot["comps"])
+                lines += ["%s %s ::= { %s%s }" % (name, "VCLO" if isoid else "VCLS", rows, ", ..." if ot["ext"] else ""), ""]
         for d in self.mod["defs"]:
             lines.append("%s ::= %s" % (d["n"], self.type_text(d["t"])))
             lines.append("")
@@ -296,7 +318,7 @@ class Module:
                 else:
                     out += ["-"]
             return out + ["}"]
-        if k == "CHOICE":
+        if k in ("CHOICE", "OPEN"):
             cs = self.comps(t)
             idx = [c["n"] for c in cs].index(v[0])
             return ["C%d" % idx] + self.tokens(cs[idx]["t"], v[1], rep)
@@ -358,7 +380,7 @@ class Module:
                 if len(q) != len(cs):
                     raise Malformed()
                 return [[] if e is None else [self.unproject(c["t"], e)] for c, e in zip(cs, q)]
-            if k == "CHOICE":
+            if k in ("CHOICE", "OPEN"):
                 cs = self.comps(t)
                 if p["C"] < 0 or p["C"] >= len(cs):
                     raise Malformed()
